@@ -98,11 +98,11 @@ def c09(prop, tier, verdict):
 
 def c16(prop, tier, verdict):
     def cl(line, s):
-        return 'auth:%s/first=%s,pipe=%s,timing=%s,hook=%s-%s' % (line.get('ev'), s.get('first'), s.get('pipe'), s.get('timing'), s.get('hookpos'), s.get('hookverdict'))
+        return 'auth:%s/first=%s,pipe=%s,timing=%s,hook=%s-%s%s' % (line.get('ev'), s.get('first'), s.get('pipe'), s.get('timing'), s.get('hookpos'), s.get('hookverdict'), ',neighbour' if s.get('neighbour') == 'good' else '')
     cov, _ = eng_generic.run(prop, tier, verdict, 'Accept', 'auth', 'PAuth', cl, mc_cfg='Accept_mc.cfg', min_count=1000, repeats=3 if tier == 'thorough' else 1,
                              nontrivial=lambda s: s['first'] != 'authgood' or s['pipe'] != 'none')
-    return 'model_checking', cov, ['ServeConn path over the in-memory connection with the shipped auth checker plugin; the ListenAndServe path is not driven',
-                                   'client behaviours: 11 first-message classes x 4 pipelining classes x 2 timings x 5 placements/verdicts of another accept hook (440 scenarios, all replayed)']
+    return 'model_checking', cov, ['both establishment paths over in-memory connections with the shipped auth checker plugin: peer.ServeConn and the accept loop behind ListenAndServe (hook H2 on an in-memory listener); real TCP/TLS/QUIC listeners are not driven',
+                                   'client behaviours: 16 first-message classes (string and byte tokens, checker panic, checker SetID) x 4 pipelining classes x 2 timings x 5 placements/verdicts of another accept hook x 2 paths, plus for byte tokens a neighbouring connection that authenticates with a valid token of the same length between receive and compare (GOMAXPROCS 1 during that scenario): 1440 scenarios, all replayed']
 
 def c17(prop, tier, verdict):
     def cl(line, s):
